@@ -180,9 +180,14 @@ class Reader:
                     f"Bad .fjm file: overlapping segments (address {hex(start2)} is in more than one segment)."
                 )
         for segment_start, segment_length, data_start, data_length in segments:
-            # the writer refuses an empty segment, and the paged run engine cannot hold one
+            # the writer refuses these two, and the run engines cannot hold them
             if segment_length == 0:
                 raise FlipJumpReadFjmException(f"Bad .fjm file: empty segment (at word-address {hex(segment_start)}).")
+            if segment_start + segment_length >= (1 << 64):
+                raise FlipJumpReadFjmException(
+                    f"Bad .fjm file: the segment at word-address {hex(segment_start)} ends beyond "
+                    f"the 64bit word-address space."
+                )
             # data is laid out as (flip-word, jump-word) op-pairs, so its length must be even
             #  (the relative-jump reconstruction below relies on this).
             if data_length % 2 != 0:
